@@ -73,7 +73,7 @@ class FakePsiVals:
         return FakePsiVals(("slice", self.n, k.start, k.stop), self.tag)
 
 
-def build_equilibrium(ctx, topo):
+def build_equilibrium(ctx, topo, psi_pf=(0.9, 0.9), size_prefix=""):
     """Skeleton TokamakEquilibrium with symbolic sizes; runs the real describe*/
     createRegionObjects/makeConnection."""
     from hypnotoad.cases import tokamak as T
@@ -83,7 +83,7 @@ def build_equilibrium(ctx, topo):
     real = T.TokamakEquilibrium.user_options_factory.create({})
     sizes = {}
     for k in ("nx_core", "nx_pf", "nx_sol", "nx_sol_inner", "nx_sol_outer", "ny_inner_divertor", "ny_outer_divertor", "ny_inner_lower_divertor", "ny_inner_upper_divertor", "ny_outer_upper_divertor", "ny_outer_lower_divertor", "ny_inner_sol", "ny_outer_sol"):
-        s = ctx.int(k)
+        s = ctx.int(size_prefix + k)
         ctx.assume(s >= 1)
         sizes[k] = s
     myg = ctx.int("myg")
@@ -106,7 +106,7 @@ def build_equilibrium(ctx, topo):
     eq.psi_axis = 0.0
     eq.psi_increasing = True
     eq.psi_core, eq.psi_sol, eq.psi_sol_inner = 0.8, 1.3, 1.25
-    eq.psi_pf_lower, eq.psi_pf_upper = 0.9, 0.9
+    eq.psi_pf_lower, eq.psi_pf_upper = psi_pf
     eq.p_spl = None
     if topo == "lsn":
         eq.x_points, eq.psi_sep = [lowx], [1.0]
